@@ -921,8 +921,15 @@ def check(ctx):
     with ctx.shared({'C09': 'C05.5'}):
         c09._unsnapshotted(ctx, ctx.index.get_class(K.MASTER, 'Master'))
     _typestate(ctx)
-    from .sched_model import acquire_owner
+    from .sched_model import acquire_owner, loop_always_run
     acquire_owner(ctx, 'C05.1')
+    loop_always_run(ctx, 'C05.1')
+    # shared with C09.2: a victim of the eviction scan keeps its identity
+    # while it is recorded for restore - back on the same server with the
+    # same expiry nothing is published, so a new identity would stay unknown
+    # to the record (and the old one goes to somebody else)
+    with ctx.shared({'C09': 'C05.5'}):
+        c09._identity_with_placement(ctx)
     _group_removal(ctx)
     _group_sync(ctx)
     identity_presence_tests(ctx)
